@@ -163,6 +163,7 @@ func runC18(p *Prog, r *Report, tier string) {
 		r.Undecided("R-TLS", "anchor: crypto/tls and pion/dtls constants", "go.mod", "constants not found in the loaded program")
 		return
 	}
+	checkCallerConfigReadOnly(p, r)
 	cfgs := collectConfigs(p, "pkg/exporter", "pkg/collector")
 	counts := map[string]int{}
 	for _, c := range cfgs {
@@ -493,4 +494,58 @@ func certProvenance(p *Prog, v ssa.Value, at ssa.Instruction) string {
 		}
 	}
 	return "certificate does not come from tls.X509KeyPair"
+}
+
+// checkCallerConfigReadOnly: the TLS settings an application hands over (ExporterTLSClientConfig, reached through a
+// pointer in ExporterInput) are only read by the library. A default written through that pointer (e.g. ServerName taken
+// from the first collector's address) persists in the caller's object: a second exporter created from the same settings
+// for another host verifies that host's certificate against the first name.
+func checkCallerConfigReadOnly(p *Prog, r *Report) {
+	const cfgType = "pkg/exporter.ExporterTLSClientConfig"
+	reads, writes := 0, 0
+	for _, f := range p.RepoFns {
+		if !keyInPkg(fnKey(f), "pkg/exporter") {
+			continue
+		}
+		eachInstr(f, func(in ssa.Instruction) {
+			fa, ok := in.(*ssa.FieldAddr)
+			if !ok {
+				return
+			}
+			tn, fname, base, ok := fieldOf(fa)
+			if !ok || tn != cfgType {
+				return
+			}
+			// a composite literal being filled in here is the library's own object
+			if al, ok := stripChange(base).(*ssa.Alloc); ok && al.Parent() == f {
+				return
+			}
+			stored := false
+			for _, ref := range refs(fa) {
+				switch y := ref.(type) {
+				case *ssa.Store:
+					if y.Addr == ssa.Value(fa) {
+						stored = true
+					}
+				case *ssa.Call:
+					// the field's address handed to a callee (could be written there)
+					stored = true
+				}
+			}
+			if stored {
+				writes++
+				r.Violation("R-TLS.caller-config", fmt.Sprintf("%s: writes ExporterTLSClientConfig.%s", fnKey(f), fname), p.instrPos(in),
+					"the caller's TLS settings are modified in place: a value derived from this collector (server name, CA, certificate) stays in the application's object and is used for the next collector it is reused for")
+			} else {
+				reads++
+			}
+		})
+	}
+	r.Facts["R-TLS.caller-config.reads"] = reads
+	if reads == 0 {
+		r.Undecided("R-TLS.caller-config", "anchor: reads of ExporterTLSClientConfig fields in pkg/exporter", "pkg/exporter/process.go", "no field of the caller's TLS settings is read any more")
+	} else if writes == 0 {
+		r.Check(true, "R-TLS.caller-config", "pkg/exporter: ExporterTLSClientConfig is read-only for the library", "pkg/exporter/process.go",
+			fmt.Sprintf("%d field reads, no store through the caller's pointer", reads), "", false)
+	}
 }
